@@ -670,8 +670,11 @@ class CustomSD(BaseCorrelations):
                        - self.eta_function(time_1, **kwargs)
             if time_1 != 0.0:
                 # the difference above is the integral over a trapezoid;
-                # remove the rectangle below the triangle at time_1
-                integral -= delta * _complex_integral(
+                # remove the rectangle below the triangle at time_1 (the
+                # imaginary-time eta function is minus the double integral
+                # of the imaginary-time correlation function)
+                sign = -1.0 if matsubara else 1.0
+                integral -= sign * delta * _complex_integral(
                     lambda tau: self.correlation(tau, **kwargs),
                     a=0.0,
                     b=time_1,
